@@ -45,9 +45,17 @@ func normJSON(v any) (any, error) {
 		}
 	case map[string]any:
 		for k := range x {
+			if strings.ContainsRune(k, 0) {
+				return nil, pgError("unsupported Unicode escape sequence (\\u0000 cannot be converted to text)")
+			}
 			if x[k], err = normJSON(x[k]); err != nil {
 				return nil, err
 			}
+		}
+	case string:
+		// jsonb stores strings as text, and text cannot hold U+0000
+		if strings.ContainsRune(x, 0) {
+			return nil, pgError("unsupported Unicode escape sequence (\\u0000 cannot be converted to text)")
 		}
 	}
 	return v, nil
